@@ -242,29 +242,28 @@ def r1(repo, res):
             if isinstance(call.func, ast.Attribute) and call.func.attr == "filtered" and call.args \
                     and ts.filter_kind(call.args[0], call) == "?":
                 res.err("C15.R1", f"cannot classify filter argument `{ast.unparse(call.args[0])}` in {ref}")
-        # (c) support test that deletes candidate alleles
-        for d in [n for n in walk_local(f) if isinstance(n, ast.Delete)]:
-            c = cfg_of(f)
-            for t, pol in c.guards(c.node_of(d)):
-                if not isinstance(t, ast.expr):
+        # (c) every direct read of evidence in a stage driver (`cov[m]`: the support test that removes candidate alleles) reads the
+        #     quality- and threshold-filtered coverage
+        seen_reads = set()
+        for sub in walk_local(f):
+            if isinstance(sub, ast.Subscript) and isinstance(sub.value, ast.Name) and isinstance(sub.ctx, ast.Load):
+                stmt = sub
+                while stmt is not None and not isinstance(stmt, ast.stmt):
+                    stmt = getattr(stmt, "_parent", None)
+                if stmt is None or stmt is f or isinstance(stmt, (ast.FunctionDef, ast.AnnAssign)) and stmt is f:
+                    continue   # annotations of the signature
+                if isinstance(getattr(sub, "_parent", None), ast.AnnAssign) and sub._parent.annotation is sub:
                     continue
-                # the test may go through a local (unsupported = [m for m in ... if cov[m] <= 0]; if unsupported: ...)
-                exprs = [t]
-                for nm in [x for x in ast.walk(t) if isinstance(x, ast.Name)]:
-                    IN, defs_ = reaching(c, nm.id)
-                    ds = [defs_[k_] for k_ in IN[c.node_of(d)]]
-                    if len(ds) == 1 and isinstance(ds[0], ast.Assign):
-                        exprs.append(ds[0].value)
-                for sub in [y for e_ in exprs for y in ast.walk(e_)]:
-                    if isinstance(sub, ast.Subscript) and isinstance(sub.value, ast.Name) and isinstance(sub.ctx, ast.Load):
-                        st = ts.state(sub.value, d)
-                        if st is not None:
-                            n_sinks += 1
-                            res.ob("C15.R1", f, t, st == TF,
-                                   expected="the support test that removes an allele reads the quality- and threshold-filtered coverage",
-                                   found=f"`{ast.unparse(sub.value)}` is {st}",
-                                   clause="an allele one of whose core variants has no qualifying support is never called",
-                                   key=f"support-test:{ast.unparse(sub)}")
+                st = ts.state(sub.value, stmt)
+                if st is None or ast.unparse(sub) in seen_reads:
+                    continue
+                seen_reads.add(ast.unparse(sub))
+                n_sinks += 1
+                res.ob("C15.R1", f, stmt, st == TF,
+                       expected="the support test that removes an allele reads the quality- and threshold-filtered coverage",
+                       found=f"`{ast.unparse(sub.value)}` is {st}",
+                       clause="an allele one of whose core variants has no qualifying support is never called",
+                       key=f"support-test:{ast.unparse(sub)}")
     res.floor("C15.R1", "typestate sinks", n_sinks, 5)
     # the model builders read evidence only through their coverage parameter
     for ref in ("major::solve_major_model", "minor::solve_minor_model"):
